@@ -391,42 +391,48 @@ Proof.
       rewrite <- app_assoc. repeat split; auto.
 Qed.
 
-Fixpoint add_tasks (m : nat) (items : list N) (next : N) (gen : nat) (adds : list addop)
+Fixpoint add_tasks (b : builder) (items : list N) (next : N) (gen : nat) (adds : list addop)
   : list (nat * item) :=
   match adds with
   | [] => []
   | a :: r =>
-      (a_at a, {| it_key := nth (a_at a) items 0%N; it_gen := gen;
-                  it_nodes := map (fun j => (next + N.of_nat j)%N) (seq 0 m) |})
-      :: add_tasks m items (next + N.of_nat m)%N (S gen) r
+      let k := nth (a_at a) items 0%N in
+      (a_at a, {| it_key := k; it_gen := gen; it_nodes := fst (b k next) |})
+      :: add_tasks b items (snd (b k next)) (S gen) r
+  end.
+(** the id counter after these additions *)
+Fixpoint add_next (b : builder) (items : list N) (next : N) (adds : list addop) : N :=
+  match adds with
+  | [] => next
+  | a :: r => add_next b items (snd (b (nth (a_at a) items 0%N) next)) r
   end.
 Definition add_log (tasks : list (nat * item)) : list event :=
   flat_map (fun tx => [EvBuild (it_key (snd tx)) (it_gen (snd tx)) (fst tx);
                        EvMount (it_key (snd tx)) (it_gen (snd tx))]) tasks.
 
-Lemma fold_step_add : forall m items adds w,
+Lemma fold_step_add : forall b items adds w,
   w_panic w = false ->
   Forall (fun a => a_mode a = Normal /\ a_at a < length items /\ a_at a < length (w_children w)) adds ->
-  let w' := fold_left (step_add m mk items) adds w in
-  let tasks := add_tasks m items (w_next w) (w_gen w) adds in
+  let w' := fold_left (step_add b mk items) adds w in
+  let tasks := add_tasks b items (w_next w) (w_gen w) adds in
   let cd := place_fold tasks (w_children w, w_dom w) in
   w_children w' = fst cd /\ w_dom w' = snd cd /\ w_log w' = w_log w ++ add_log tasks /\
-  w_next w' = (w_next w + N.of_nat (m * length adds))%N /\ w_gen w' = w_gen w + length adds /\
+  w_next w' = add_next b items (w_next w) adds /\ w_gen w' = w_gen w + length adds /\
   w_panic w' = false.
 Proof.
-  intros m items adds. induction adds as [|a adds IH]; intros w Hp H.
-  - simpl. rewrite app_nil_r, Nat.mul_0_r, N.add_0_r, Nat.add_0_r. repeat split; auto.
+  intros b items adds. induction adds as [|a adds IH]; intros w Hp H.
+  - simpl. rewrite app_nil_r, Nat.add_0_r. repeat split; auto.
   - inversion H as [|? ? [Hm [Hli Hlc]] H']; subst.
     cbn [fold_left]. cbv zeta.
     destruct (nth_error items (a_at a)) as [k|] eqn:Ek.
     2:{ apply nth_error_None in Ek. lia. }
     assert (k = nth (a_at a) items 0%N) as Ek' by (symmetry; apply nth_error_nth; auto).
     pose proof Hlc as Hlc'. apply Nat.ltb_lt in Hlc'.
-    assert (step_add m mk items w a =
-            {| w_children := set_nth (a_at a) (Some (build_item m k w)) (w_children w);
-               w_dom := mount_at (w_children w) (a_at a) (build_item m k w) mk (w_dom w);
+    assert (step_add b mk items w a =
+            {| w_children := set_nth (a_at a) (Some (build_item b k w)) (w_children w);
+               w_dom := mount_at (w_children w) (a_at a) (build_item b k w) mk (w_dom w);
                w_log := w_log w ++ [EvBuild k (w_gen w) (a_at a); EvMount k (w_gen w)];
-               w_next := (w_next w + N.of_nat m)%N; w_gen := S (w_gen w); w_panic := false |}) as Es.
+               w_next := snd (b k (w_next w)); w_gen := S (w_gen w); w_panic := false |}) as Es.
     { unfold step_add. rewrite Hp, Ek, Hlc', Hm. reflexivity. }
     rewrite Es. clear Es.
     match goal with |- context [fold_left _ _ ?w1] => set (w1' := w1) end.
@@ -434,9 +440,9 @@ Proof.
     { eapply Forall_impl; [|exact H']. intros a' [A1 [A2 A3]]. repeat split; auto.
       unfold w1'. cbn [w_children]. rewrite set_nth_length. auto. }
     rewrite Hc, Hd, Hl, Hn, Hg, Hp'. unfold w1'. cbn [w_children w_dom w_log w_next w_gen].
-    cbn [add_tasks]. unfold add_log. cbn [flat_map place_fold fold_left fst snd it_key it_gen].
+    cbn [add_tasks add_next]. unfold add_log. cbn [flat_map place_fold fold_left fst snd it_key it_gen].
     unfold build_item. rewrite <- Ek'.
-    fold (add_log (add_tasks m items (w_next w + N.of_nat m) (S (w_gen w)) adds)).
+    fold (add_log (add_tasks b items (snd (b k (w_next w))) (S (w_gen w)) adds)).
     cbn [length]. rewrite <- app_assoc.
     repeat split; auto; try lia.
 Qed.
@@ -665,12 +671,12 @@ Qed.
 
 (* --------------------------------------------------------------------- newly built items *)
 
-Lemma add_tasks_fst : forall m items adds next gen,
-  map fst (add_tasks m items next gen adds) = map a_at adds.
+Lemma add_tasks_fst : forall b items adds next gen,
+  map fst (add_tasks b items next gen adds) = map a_at adds.
 Proof. induction adds as [|a adds IH]; intros; cbn [add_tasks map fst]; [|rewrite IH]; reflexivity. Qed.
 
-Lemma add_tasks_keys : forall m items adds next gen,
-  map (fun tx => it_key (snd tx)) (add_tasks m items next gen adds)
+Lemma add_tasks_keys : forall b items adds next gen,
+  map (fun tx => it_key (snd tx)) (add_tasks b items next gen adds)
   = map (fun a => nth (a_at a) items 0%N) adds.
 Proof. induction adds as [|a adds IH]; intros; cbn [add_tasks map snd it_key]; [|rewrite IH]; reflexivity. Qed.
 
@@ -681,24 +687,55 @@ Proof.
   apply map_ext. intros j. f_equal. lia.
 Qed.
 
-Lemma add_tasks_nodes : forall m items adds next gen,
-  flat_map it_nodes (map snd (add_tasks m items next gen adds))
-  = map (fun j => (next + N.of_nat j)%N) (seq 0 (m * length adds)).
+(** what a builder must guarantee: at least one node, all fresh and distinct *)
+Definition bld_ok (b : builder) : Prop :=
+  forall k nx, fst (b k nx) <> [] /\ NoDup (fst (b k nx)) /\
+               (forall n, In n (fst (b k nx)) -> (nx <= n < snd (b k nx))%N).
+
+Lemma bld_ok_mono : forall b k nx, bld_ok b -> (nx <= snd (b k nx))%N.
 Proof.
-  induction adds as [|a adds IH]; intros next gen.
-  - cbn [add_tasks map flat_map length]. rewrite Nat.mul_0_r. reflexivity.
-  - cbn [add_tasks map flat_map snd it_nodes length]. rewrite IH.
-    rewrite Nat.mul_succ_r, Nat.add_comm, seq_app, map_app. f_equal.
-    rewrite (map_seq_shift _ (0 + m)). apply map_ext. intros j.
-    rewrite Nat.add_0_l, Nat2N.inj_add. lia.
+  intros b k nx H. destruct (H k nx) as [Hne [_ Hr]]. destruct (fst (b k nx)) as [|n l]; [congruence|].
+  specialize (Hr n (or_introl eq_refl)). lia.
 Qed.
 
-Lemma add_tasks_nonempty : forall m items adds next gen it, 1 <= m ->
-  In it (map snd (add_tasks m items next gen adds)) -> it_nodes it <> [].
+Lemma fixed_bld_ok : forall m, 1 <= m -> bld_ok (fixed_bld m).
 Proof.
-  induction adds as [|a adds IH]; intros next gen it Hm Hin; [contradiction|].
+  intros m Hm k nx. unfold fixed_bld. cbn [fst snd]. repeat split.
+  - destruct m; [lia|]. discriminate.
+  - apply FinFun.Injective_map_NoDup; [|apply seq_NoDup].
+    intros x y E. apply N.add_cancel_l in E. apply Nat2N.inj. exact E.
+  - apply in_map_iff in H. destruct H as [j [E _]]. lia.
+  - apply in_map_iff in H. destruct H as [j [E Hj]]. apply in_seq in Hj. lia.
+Qed.
+
+Lemma add_tasks_range : forall b items adds next gen, bld_ok b ->
+  NoDup (flat_map it_nodes (map snd (add_tasks b items next gen adds))) /\
+  (forall n, In n (flat_map it_nodes (map snd (add_tasks b items next gen adds))) ->
+             (next <= n < add_next b items next adds)%N) /\
+  (next <= add_next b items next adds)%N.
+Proof.
+  intros b items adds. induction adds as [|a adds IH]; intros next gen Hb.
+  - simpl. split; [constructor|]. split; [intros n []|lia].
+  - cbn [add_tasks map flat_map snd it_nodes add_next].
+    set (k := nth (a_at a) items 0%N). destruct (Hb k next) as [Hne [Hnd Hr]].
+    pose proof (bld_ok_mono b k next Hb) as Hm.
+    destruct (IH (snd (b k next)) (S gen) Hb) as [I1 [I2 I3]]. repeat split.
+    + clear -Hnd I1 I2 Hr. revert Hnd Hr. generalize (fst (b k next)) as l. induction l as [|x l IHl]; intros Hnd Hr; auto.
+      simpl. inversion Hnd; subst. constructor.
+      * intro Hc. apply in_app_or in Hc. destruct Hc as [Hc|Hc]; [contradiction|].
+        specialize (I2 x Hc). specialize (Hr x (or_introl eq_refl)). lia.
+      * apply IHl; auto. intros; apply Hr; right; auto.
+    + apply in_app_or in H. destruct H as [H|H]; [specialize (Hr n H); lia | specialize (I2 n H); lia].
+    + apply in_app_or in H. destruct H as [H|H]; [specialize (Hr n H); lia | specialize (I2 n H); lia].
+    + lia.
+Qed.
+
+Lemma add_tasks_nonempty : forall b items adds next gen it, bld_ok b ->
+  In it (map snd (add_tasks b items next gen adds)) -> it_nodes it <> [].
+Proof.
+  induction adds as [|a adds IH]; intros next gen it Hb Hin; [contradiction|].
   cbn [add_tasks map snd] in Hin. destruct Hin as [E|Hin].
-  - subst. cbn [it_nodes]. destruct m; [lia|]. discriminate.
+  - subst. cbn [it_nodes]. apply Hb.
   - eapply IH; eauto.
 Qed.
 
@@ -718,17 +755,15 @@ Proof.
   intros x y E. apply N.add_cancel_l in E. apply Nat2N.inj. exact E.
 Qed.
 
-Lemma wf_extend : forall next its news K,
+Lemma wf_extend : forall next next' its news,
   wf_items pre post mk next its ->
   NoDup (map it_key news) -> (forall k, In k (map it_key news) -> ~ In k (map it_key its)) ->
-  flat_map it_nodes news = map (fun j => (next + N.of_nat j)%N) (seq 0 K) ->
+  NoDup (flat_map it_nodes news) ->
+  (forall n, In n (flat_map it_nodes news) -> (next <= n < next')%N) -> (next <= next')%N ->
   (forall it, In it news -> it_nodes it <> []) ->
-  wf_items pre post mk (next + N.of_nat K)%N (its ++ news).
+  wf_items pre post mk next' (its ++ news).
 Proof.
-  intros next its news K [Hk Hd Hne Hfr] Hnk Hdisj Hflat Hnn.
-  assert (forall n, In n (flat_map it_nodes news) -> (next <= n < next + N.of_nat K)%N) as Hrange.
-  { intros n Hn. rewrite Hflat in Hn. apply in_map_iff in Hn. destruct Hn as [j [E Hj]].
-    apply in_seq in Hj. subst. lia. }
+  intros next next' its news [Hk Hd Hne Hfr] Hnk Hdisj Hfnd Hrange Hle Hnn.
   constructor.
   - rewrite map_app. apply NoDup_app_intro; auto. intros k H1 H2. eapply Hdisj; eauto.
   - rewrite flat_map_app.
@@ -736,8 +771,7 @@ Proof.
     + eapply perm_trans; [apply Permutation_app_swap_app|]. apply Permutation_app_head.
       rewrite <- app_assoc. apply Permutation_app_swap_app.
     + apply NoDup_app_intro; auto.
-      * rewrite Hflat. apply fresh_nodes_NoDup.
-      * intros n Hn Hc. apply Hrange in Hn. apply Hfr in Hc. lia.
+      intros n Hn Hc. apply Hrange in Hn. apply Hfr in Hc. lia.
   - intros it Hit. apply in_app_or in Hit. destruct Hit; auto.
   - intros n Hn. rewrite flat_map_app in Hn.
     assert (In n (pre ++ flat_map it_nodes its ++ mk :: post) \/ In n (flat_map it_nodes news)) as [H|H].
@@ -749,27 +783,27 @@ Qed.
 (* ------------------------------------------------------------ the general case, assembled *)
 
 (** [apply_diff] once [diff] said: no clear, removals [r], single moves [ms], additions [a] *)
-Definition apply_general (m : nat) (r : list nat) (ms : list mv) (a : list addop)
+Definition apply_general (b : builder) (r : list nat) (ms : list mv) (a : list addop)
                          (items : list N) (w : work) : work :=
   let w := fold_left step_remove r w in
   let '(w, mc) := fold_left step_take ms (w, []) in
   let w := with_children w (w_children w ++ repeat None (length a)) in
   let w := fold_left (step_nondom mc) (enumerate_from 0 ms) w in
   let w := fold_left (step_dom mk mc) (enumerate_from 0 ms) w in
-  let w := fold_left (step_add m mk items) a w in
+  let w := fold_left (step_add b mk items) a w in
   with_children w (map Some (somes (w_children w))).
 
-Lemma apply_diff_general : forall m d r ms a items w,
+Lemma apply_diff_general : forall b d r ms a items w,
   d_clear d = false -> d_removed d = r -> d_added d = a -> unpack_moves d = (ms, a) ->
-  apply_diff m mk d items w = apply_general m r ms a items w.
+  apply_diff b mk d items w = apply_general b r ms a items w.
 Proof.
-  intros m d r ms a items w Hc Hr Ha Hu. unfold apply_diff, apply_general.
+  intros b d r ms a items w Hc Hr Ha Hu. unfold apply_diff, apply_general.
   rewrite Hc, Hr, Ha, Hu. cbn [andb]. reflexivity.
 Qed.
 
 Section Main.
-Variable m : nat.
-Hypothesis Hm : 1 <= m.
+Variable b : builder.
+Hypothesis Hbld : bld_ok b.
 Variable its : list item.
 Variable next : N.
 Variable gen : nat.
@@ -784,7 +818,7 @@ Let from := map it_key its.
 Let dummy : item := {| it_key := 0%N; it_gen := 0; it_nodes := [] |}.
 Let item_at (i : nat) : item := nth i its dummy.
 Let xof (mv : mv) : item := item_at (m_from mv).
-Let tasksA := add_tasks m to next gen a.
+Let tasksA := add_tasks b to next gen a.
 Let news := map snd tasksA.
 Let all := its ++ news.
 Let nodes_of := nodes_in all.
@@ -891,12 +925,12 @@ Proof.
   - apply IH; auto. intros y Hy. apply Hn. right. auto.
 Qed.
 
-Lemma wf_all : wf_items pre post mk (next + N.of_nat (m * length a))%N all.
+Lemma wf_all : wf_items pre post mk (add_next b to next a) all.
 Proof.
-  unfold all. apply wf_extend; auto.
+  unfold all. destruct (add_tasks_range b to a next gen Hbld) as [R1 [R2 R3]].
+  apply (wf_extend next); auto.
   - apply news_keys_nodup.
   - intros k Hk. apply news_key_facts in Hk. tauto.
-  - unfold news, tasksA. apply add_tasks_nodes.
   - intros it Hit. eapply add_tasks_nonempty; eauto.
 Qed.
 
@@ -1151,11 +1185,11 @@ Let wm2 := fold_left step_take ms (w1, []).
 Let w3 := with_children (fst wm2) (w_children (fst wm2) ++ repeat None (length a)).
 Let w4 := fold_left (step_nondom (snd wm2)) (enumerate_from 0 ms) w3.
 Let w5 := fold_left (step_dom mk (snd wm2)) (enumerate_from 0 ms) w4.
-Let w6 := fold_left (step_add m mk to) a w5.
+Let w6 := fold_left (step_add b mk to) a w5.
 Let unmount_log := map (fun i => EvUnmount (it_key (item_at i)) (it_gen (item_at i))) r.
 
 Lemma apply_general_eq :
-  apply_general m r ms a to w0 = with_children w6 (map Some (somes (w_children w6))).
+  apply_general b r ms a to w0 = with_children w6 (map Some (somes (w_children w6))).
 Proof.
   unfold apply_general, w6, w5, w4, w3, wm2, w1.
   destruct (fold_left step_take ms (fold_left step_remove r w0, [])) as [w mc]. reflexivity.
@@ -1243,7 +1277,7 @@ Proof.
   apply Hgen; auto.
 Qed.
 
-Lemma add_tasks_in : forall items adds nx g t x, In (t, x) (add_tasks m items nx g adds) ->
+Lemma add_tasks_in : forall items adds nx g t x, In (t, x) (add_tasks b items nx g adds) ->
   exists ad, In ad adds /\ t = a_at ad /\ it_key x = nth (a_at ad) items 0%N.
 Proof.
   induction adds as [|ad adds IH]; intros nx g t x H; [contradiction|].
@@ -1291,14 +1325,14 @@ Qed.
 (** [apply_diff] in the general case: final items, DOM, log, allocation counters and the
     well-formedness of the new state *)
 Theorem apply_general_ok :
-  let w := apply_general m r ms a to w0 in
+  let w := apply_general b r ms a to w0 in
   let items' := somes (w_children w) in
   w_panic w = false /\ map it_key items' = to /\
   w_dom w = pre ++ flat_map it_nodes items' ++ mk :: post /\
   (forall it, In it items' -> In it its \/ In it news) /\
   (forall it, In it its -> In (it_key it) to -> In it items') /\
   w_log w = unmount_log ++ nondom_log xof ms ++ dom_log xof ms ++ add_log tasksA /\
-  w_next w = (next + N.of_nat (m * length a))%N /\ w_gen w = gen + length a /\
+  w_next w = add_next b to next a /\ w_gen w = gen + length a /\
   wf_items pre post mk (w_next w) items'.
 Proof.
   cbv zeta. rewrite apply_general_eq. cbn [with_children w_children w_dom w_log w_next w_gen w_panic].
@@ -1333,7 +1367,7 @@ Proof.
   { rewrite Forall_forall. intros x Hx. destruct (a_facts x Hx) as [Hmo [t [Ht _]]].
     assert (a_at x < length to) by (apply nth_error_Some; congruence).
     repeat split; auto. rewrite C5, Len5. lia. }
-  pose proof (fold_step_add m to a w5 P5 Pre6) as X6. cbv zeta in X6.
+  pose proof (fold_step_add b to a w5 P5 Pre6) as X6. cbv zeta in X6.
   destruct X6 as [C6 [D6 [L6 [N6 [G6 P6]]]]].
   fold w6 in C6, D6, L6, N6, G6, P6. rewrite N5, G5, N4, G4 in C6, D6, L6. fold tasksA in C6, D6, L6.
   rewrite N5, N4 in N6. rewrite G5, G4 in G6.
@@ -1355,7 +1389,7 @@ Proof.
     - rewrite Len5. lia.
     - intro Hc. apply in_map_iff in Hc. destruct Hc as [it [E Hit]]. apply Old5 in Hit.
       apply Hnf. rewrite <- En, <- Ek, <- E. unfold from. apply in_map. auto. }
-  { unfold tasksA. replace (map (fun tx => it_key (snd tx)) (add_tasks m to next gen a))
+  { unfold tasksA. replace (map (fun tx => it_key (snd tx)) (add_tasks b to next gen a))
       with (map it_key news) by (unfold news, tasksA; rewrite map_map; reflexivity).
     apply news_keys_nodup. }
   set (cd6 := place_fold tasksA (fst cd5, snd cd5)) in *.
@@ -1452,14 +1486,15 @@ Qed.
 Lemma built_add_log : forall tasks, built (add_log tasks) = map (fun tx => it_key (snd tx)) tasks.
 Proof. induction tasks as [|tx tasks IH]; [reflexivity|]. unfold built, add_log in *. cbn [flat_map map app]. rewrite IH. reflexivity. Qed.
 
-Lemma add_tasks_fresh : forall items adds nx g t x, In (t, x) (add_tasks m items nx g adds) ->
+Lemma add_tasks_fresh : forall items adds nx g t x, In (t, x) (add_tasks b items nx g adds) ->
   g <= it_gen x /\ (forall n, In n (it_nodes x) -> (nx <= n)%N).
 Proof.
   induction adds as [|ad adds IH]; intros nx g t x H; [contradiction|].
   cbn [add_tasks] in H. destruct H as [E|H].
-  - inversion E. subst. cbn [it_gen it_nodes]. split; auto. intros n Hn. apply in_map_iff in Hn.
-    destruct Hn as [j [Ej _]]. lia.
-  - destruct (IH _ _ _ _ H) as [H1 H2]. split; [lia|]. intros n Hn. specialize (H2 n Hn). lia.
+  - inversion E. subst. cbn [it_gen it_nodes]. split; auto. intros n Hn.
+    destruct (Hbld (nth (a_at ad) items 0%N) nx) as [_ [_ Hr]]. specialize (Hr n Hn). lia.
+  - destruct (IH _ _ _ _ H) as [H1 H2]. split; [lia|]. intros n Hn. specialize (H2 n Hn).
+    pose proof (bld_ok_mono b (nth (a_at ad) items 0%N) nx Hbld). lia.
 Qed.
 
 Definition full_log : list event :=
@@ -1533,7 +1568,7 @@ Qed.
 
 (** everything the property asks of one [rebuild], for the general case of [apply_diff] *)
 Theorem apply_general_props :
-  let w := apply_general m r ms a to w0 in
+  let w := apply_general b r ms a to w0 in
   let items' := somes (w_children w) in
   w_panic w = false /\ map it_key items' = to /\
   w_dom w = pre ++ flat_map it_nodes items' ++ mk :: post /\
@@ -1553,7 +1588,8 @@ Proof.
   destruct H as [P [K [D [Prov [Id [L [Nx [Gn W]]]]]]]].
   fold full_log in L. rewrite L. destruct log_built as [B1 B2].
   split; [exact P|]. split; [exact K|]. split; [exact D|]. split; [exact W|].
-  split; [rewrite Nx; lia|]. split; [rewrite Gn; lia|]. split; [exact Id|].
+  split; [rewrite Nx; exact (proj2 (proj2 (add_tasks_range b to a next gen Hbld)))|].
+  split; [rewrite Gn; lia|]. split; [exact Id|].
   split; [|split; [apply log_unmounts|split; [exact B1|split; [exact B2|split;
             [apply log_set_index_sound|apply log_set_index_complete]]]]].
   intros it Hit. destruct (Prov it Hit) as [Ho|Hn]; auto. right.
